@@ -11,6 +11,7 @@ import (
 	"strings"
 	"sync"
 	"sync/atomic"
+	"time"
 
 	snes "github.com/alttpo/snes"
 	"github.com/alttpo/snes/asm"
@@ -93,12 +94,72 @@ func newActor(id int) *c18actor {
 }
 
 // one operation of the given kind; returns its result digest.
+// c18progress counts completed operations of all actors; the stall supervisor watches it.
+var c18progress atomic.Int64
+
+// superviseStalls: no actor operation takes longer than milliseconds. When none has completed for a
+// long time the supervisor looks at the goroutine stacks: goroutines parked on a lock, channel or
+// condition inside library code while no goroutine is running library code can never be woken - an
+// instance is blocked for ever by what another instance did. The clock only decides when to look; the
+// verdict comes from the stacks (anything else is left to the watchdog as inconclusive).
+func superviseStalls(r *vf.Run) {
+	go func() {
+		last, stalls := c18progress.Load(), 0
+		for {
+			time.Sleep(2 * time.Second)
+			cur := c18progress.Load()
+			if cur != last {
+				last, stalls = cur, 0
+				continue
+			}
+			stalls++
+			if stalls < 30 {
+				continue
+			}
+			stalls = 0
+			buf := make([]byte, 8<<20)
+			buf = buf[:runtime.Stack(buf, true)]
+			var parked []string
+			running := false
+			for _, blk := range strings.Split(string(buf), "\n\n") {
+				if !strings.Contains(blk, "github.com/alttpo/snes") {
+					continue
+				}
+				head := blk
+				if i := strings.IndexByte(blk, '\n'); i >= 0 {
+					head = blk[:i]
+				}
+				isParked := false
+				for _, st := range []string{"[sync.Mutex.Lock", "[sync.RWMutex", "[semacquire", "[chan receive", "[chan send", "[select", "[sync.Cond.Wait", "[sync.WaitGroup.Wait"} {
+					if strings.Contains(head, st) {
+						isParked = true
+					}
+				}
+				if isParked {
+					lines := strings.Split(blk, "\n")
+					if len(lines) > 12 {
+						lines = lines[:12]
+					}
+					parked = append(parked, strings.Join(lines, "\n"))
+				} else {
+					running = true
+				}
+			}
+			if len(parked) > 0 && !running {
+				r.Fail("instance-blocked-forever", fmt.Sprintf("no operation completed for a minute and %d goroutines are parked inside library code on a lock/channel that no running goroutine can release, e.g. %s", len(parked), strings.ReplaceAll(parked[0], "\n", " | ")), parked)
+				os.Exit(r.Finish())
+			}
+		}
+	}()
+}
+
 func (a *c18actor) op(kind int, g *vf.Rng) (d uint64) {
 	d = 1469598103934665603
 	defer func() {
 		if e := recover(); e != nil {
 			d = mixStr(d, fmt.Sprint("panic:", e))
 		}
+		c18progress.Add(1)
 	}()
 	switch kind {
 	case kSystem:
@@ -113,6 +174,12 @@ func (a *c18actor) op(kind int, g *vf.Rng) (d uint64) {
 		genProgram(g, &st, img, 60)
 		for i := 0; i < 256; i++ {
 			s.ROM[i] = img.Peek(uint32(0x8000 + i))
+		}
+		if g.Intn(5) == 0 {
+			// error paths too: after a few instructions the program jumps into a part of the map where
+			// nothing is attached; the run faults (with the tracer attached) and the host recovers
+			at := 2 + g.Intn(12)
+			copy(s.ROM[at:], []byte{0x5C, byte(g.Intn(256)), byte(0x80 + g.Intn(0x80)), byte(0x40 + g.Intn(0x30))})
 		}
 		tmp := &cpuRig{bus: &s.Bus}
 		tmp.loadPrim(st, false, g)
@@ -362,6 +429,7 @@ func C18(r *vf.Run) {
 		}
 	}
 	rigLight = true // dozens of rigs alive at once; device routing is judged elsewhere
+	superviseStalls(r)
 	if !r.Phase("concurrent-instances") {
 		return
 	}
